@@ -229,3 +229,47 @@ def stall(avail: int, chunk: int) -> bool:
     except Exception:  # noqa: BLE001
         ok = False
     return fin(M, ok, avail=avail, chunk=chunk)
+
+
+# ------------------------------------------------------------------------------------------
+def pull_graph(fs: int) -> bool:
+    """
+    pre: fs >= 1
+    post: _
+    """
+    # GraphStream with a bounded (flat) flow driven graph by graph: whenever the stream asks for the next triple,
+    # and whenever a graph is finished, fewer than frame_size rows are pending
+    integ = P["integ"]
+    try:
+        opts = pj.make_options(3, frame_size=fs, generalized=integ == "generic", rdf_star=integ == "generic")
+        stream = pj.gen_stream(3, opts) if integ == "generic" else pj.PHYS_STREAM[3].for_rdflib(opts)
+        conv = pj.terms.to_generic if integ == "generic" else pj.terms.to_rdflib
+        graphs = [(alpha.I_AX, ITEMS_T[0:2]), (alpha.DEF, ITEMS_T[2:3]), (alpha.B1, ITEMS_T[3:5])]
+        stream.enroll()
+        st = {"n": 0}
+        ok = True
+        viol = []
+
+        def triples(ts):
+            for j, t in enumerate(ts):
+                st["n"] += 1
+                # the rows of the graph start (entries + start marker) are appended before the first triple is asked
+                # for; the bound is re-established after every triple and after every graph end
+                allowance = (len(stream.flow) - st["before_graph"]) if j == 0 else 0
+                if st["n"] >= 2 and not (len(stream.flow) - allowance < fs):
+                    viol.append(1)
+                yield tuple(conv(x) for x in t[1:4])
+
+        total_rows = 0
+        for gid, ts in graphs:
+            st["before_graph"] = len(stream.flow)
+            for fr in stream.graph(conv(gid), triples(ts)):
+                total_rows += len(fr.rows)
+            if not (len(stream.flow) < fs):
+                viol.append(1)
+        ok = not viol
+        if P.get("twin"):
+            ok = False
+    except Exception:  # noqa: BLE001
+        ok = False
+    return fin(M, ok, fs=fs)
